@@ -29,13 +29,41 @@
 #include <iv_inotify.h>
 #include <iv_signal.h>
 #include <iv_work.h>
+#include <iv_tls.h>
+#include <stdatomic.h>
 
 const char *target_name = "hyg";
 
-enum { L_THREAD_NO_DEINIT, L_THREAD_DEINIT, L_POLL_ARRAYS, L_BIG_TIMERS, L_PUMP, L_POOL, L_EVENTS, L_KERNEL_TIMER, L_INOTIFY, L_SIGNAL, L_M0, L_M1, L_M2, L_M3, L_FAILED_TRY, L_MAIN_CYCLES, L_PUMP_SPLICE_CACHED, L_RAW };
+enum { L_THREAD_NO_DEINIT, L_THREAD_DEINIT, L_POLL_ARRAYS, L_BIG_TIMERS, L_PUMP, L_POOL, L_EVENTS, L_KERNEL_TIMER, L_INOTIFY, L_SIGNAL, L_M0, L_M1, L_M2, L_M3, L_FAILED_TRY, L_MAIN_CYCLES, L_PUMP_SPLICE_CACHED, L_RAW, L_TLS_MODULE, L_FLOOD };
 
 #define FAILC(tag, ...) vz_fail("C18", tag, __VA_ARGS__)
 static void fatal_handler(const char *msg) { vz_fail("C18", "fatal", "iv_fatal: %s", msg); _exit(3); }
+
+/* a module of the application that keeps per-thread state through iv_tls: a pipe made in ->init_thread and released in
+ * ->deinit_thread, which (as documented) may call any ivykis function - it registers and unregisters a descriptor and a timer */
+struct mod_tls { int pfd[2]; struct iv_fd fd; struct iv_timer tm; };
+static atomic_int mod_inits, mod_deinits;
+static void mod_noop(void *c) { (void)c; }
+static struct iv_tls_user mod_tls_user;
+static void mod_init_thread(void *p)
+{
+	struct mod_tls *t = p;
+	if (pipe(t->pfd) < 0) vz_inconclusive("pipe");
+	atomic_fetch_add(&mod_inits, 1);
+}
+static void mod_deinit_thread(void *p)
+{
+	struct mod_tls *t = p;
+	atomic_fetch_add(&mod_deinits, 1);
+	if (!iv_inited()) { FAILC("deinit-hook-context", "an iv_tls ->deinit_thread hook runs in a thread that ivykis reports as not initialised (iv_inited() = 0): the hook cannot call ivykis functions to release what it holds"); return; }
+	if (iv_tls_user_ptr(&mod_tls_user) != p) FAILC("deinit-hook-context", "iv_tls_user_ptr() inside ->deinit_thread does not return the module's per-thread state");
+	IV_FD_INIT(&t->fd); t->fd.fd = t->pfd[0]; t->fd.cookie = t; t->fd.handler_in = mod_noop;
+	iv_fd_register(&t->fd); iv_fd_unregister(&t->fd);
+	IV_TIMER_INIT(&t->tm); iv_validate_now(); t->tm.expires = iv_now; t->tm.expires.tv_sec += 100; t->tm.cookie = t; t->tm.handler = mod_noop;
+	iv_timer_register(&t->tm); iv_timer_unregister(&t->tm);
+	close(t->pfd[0]); close(t->pfd[1]);
+}
+static struct iv_tls_user mod_tls_user = { .sizeof_state = sizeof(struct mod_tls), .init_thread = mod_init_thread, .deinit_thread = mod_deinit_thread };
 
 /* ------------------------------------------------------------------ measurements */
 static int fd_set_snapshot(unsigned char *bits, int nbits)
@@ -226,8 +254,56 @@ static void warm_thread_cache(void)
 	pthread_barrier_destroy(&warm_bar);
 }
 
+/* ------------------------------------------------------------------ flood: far more submissions to one pool than any counter width assumed
+ * (param flood=N): N items through one pool with a bounded number in flight, each must run once in a worker and complete once
+ * in the owner, and the loop must end after the pool is released.  Free-running threads; a pool that stops making progress is
+ * seen as the loop spinning (CPU budget) or blocking for good (wall-clock: inconclusive). */
+static struct iv_work_pool fl_pool; static struct iv_work_item *fl_items; static unsigned char *fl_work, *fl_comp;
+static long fl_n, fl_submitted, fl_completed, fl_window; static pthread_t fl_owner;
+static void fl_work_fn(void *c) { long i = (long)(intptr_t)c; if (pthread_equal(pthread_self(), fl_owner)) vz_fail("C12", "work-in-owner", "flood: work function of item %ld ran in the owner thread", i); if (fl_work[i] < 255) fl_work[i]++; }
+static int *fl_slot;
+static void fl_submit(long slot)
+{
+	long i = fl_submitted++;
+	fl_slot[i] = (int)slot;
+	struct iv_work_item *w = &fl_items[slot];      /* the struct of an item whose completion is running is used for the next one */
+	IV_WORK_ITEM_INIT(w); w->cookie = (void *)(intptr_t)i; w->work = fl_work_fn; w->completion = NULL;
+	extern void fl_comp_fn(void *c); w->completion = fl_comp_fn;
+	iv_work_pool_submit_work(&fl_pool, w);
+}
+void fl_comp_fn(void *c)
+{
+	long i = (long)(intptr_t)c;
+	if (fl_comp[i] < 255) fl_comp[i]++;
+	if (fl_work[i] != 1) vz_fail("C12", "completion-before-work", "flood: completion of item %ld with its work function run %d times", i, fl_work[i]);
+	fl_completed++;
+	if (fl_submitted < fl_n) fl_submit(fl_slot[i]);
+	else if (fl_completed == fl_n) iv_work_pool_put(&fl_pool);
+}
+static void run_flood(long n)
+{
+	int method = ch_n(4);
+	setenv("IV_EXCLUDE_POLL_METHOD", excl[method], 1);
+	fl_n = n + ch_n(4000); fl_window = 1 + (long[]){ 1, 7, 500, 3000 }[ch_n(4)];
+	fl_items = calloc(fl_window, sizeof *fl_items); fl_work = calloc(fl_n, 1); fl_comp = calloc(fl_n, 1); fl_slot = calloc(fl_n, sizeof *fl_slot);
+	fl_owner = pthread_self();
+	vz_log("flood: %ld items through one pool, at most %ld in flight", fl_n, fl_window);
+	vz_hash_u(0x7000 + method); vz_hash_u(fl_n); vz_hash_u(fl_window);
+	iv_set_fatal_msg_handler(fatal_handler);
+	iv_init();
+	IV_WORK_POOL_INIT(&fl_pool); fl_pool.max_threads = 1 + ch_n(4); fl_pool.cookie = NULL;
+	if (iv_work_pool_create(&fl_pool)) vz_inconclusive("pool create");
+	for (long k = 0; k < fl_window && fl_submitted < fl_n; k++) fl_submit(k);
+	iv_main();
+	iv_deinit();
+	for (long i = 0; i < fl_n; i++) if (fl_work[i] != 1 || fl_comp[i] != 1) { vz_fail("C12", "flood-item", "item %ld of %ld: work function ran %d times, completion %d times (loop ended)", i, fl_n, fl_work[i], fl_comp[i]); break; }
+	vz_count(0, fl_n);
+	vz_label(L_FLOOD); vz_nontrivial();
+}
+
 void target_run(void)
 {
+	if (vz_param_l("flood", 0) > 0) { run_flood(vz_param_l("flood", 0)); return; }
 	int method = ch_n(4);
 	setenv("IV_EXCLUDE_POLL_METHOD", excl[method], 1);
 	vz_label(L_M0 + method);
@@ -239,6 +315,8 @@ void target_run(void)
 	iv_set_fatal_msg_handler(fatal_handler);
 	signal(SIGPIPE, SIG_IGN);
 	warm_thread_cache();
+	int with_module = ch_n(2);
+	if (with_module) { iv_tls_user_register(&mod_tls_user); vz_label(L_TLS_MODULE); }
 	unsigned char fd0[128], fd1[128];
 	size_t base_bytes = 0; int base_threads = 0; int nfd0 = 0;
 	for (int k = 0; k < ncyc; k++) {
@@ -267,6 +345,8 @@ void target_run(void)
 			if (tc != base_threads) FAILC("thread-leak", "after cycle %d there are %d threads, %d after the warm-up cycles", k, tc, base_threads);
 		}
 	}
+	if (with_module && (atomic_load(&mod_inits) < ncyc || atomic_load(&mod_deinits) != atomic_load(&mod_inits)))
+		FAILC("tls-hooks-unpaired", "%d loop life cycles (plus the library's own threads): the module's ->init_thread ran %d times, its ->deinit_thread %d times", ncyc, atomic_load(&mod_inits), atomic_load(&mod_deinits));
 	if (__lsan_do_recoverable_leak_check()) FAILC("lsan-leak", "LeakSanitizer reports unreachable memory after the cycles");
 	vz_count(0, ncyc);
 	int no_deinit = vz_has_label(L_THREAD_NO_DEINIT);
